@@ -1117,9 +1117,9 @@ def _sym_lean(e, mode):
     if k == 'a':
         if mode == 'int':
             raise Unsupported('affine entry in an integer-valued accessor')
-        return f'a {e[1]} {e[2]}'
+        return f'(a {e[1]} {e[2]})'
     if k == 'n':
-        return f'n {e[1]}' if mode == 'int' else f'((n {e[1]} : Int) : Rat)'
+        return f'(n {e[1]})' if mode == 'int' else f'((n {e[1]} : Int) : Rat)'
     if k == 'int':
         return f'({e[1]} : Int)' if mode == 'int' else f'({e[1]} : Rat)'
     if k == 'rat':
